@@ -203,7 +203,9 @@ def import_seeder_threaded():
 
 # ---------------------------------------------------------------------------------------------------------------
 # time zones and HTTP dates (written out here: the checks must not use mapproxy.util.times as their own yardstick)
-TIMEZONES = ['UTC', 'UTC', 'EAST-3', 'WEST5', 'IST-5:30', 'PST8']     # POSIX TZ strings with fixed offsets (no DST rules)
+# POSIX TZ strings: fixed offsets, and one zone with a daylight-saving rule under which summer time is in force during the
+# whole simulated period (it starts on 2023-11-14 and the next switch is months away)
+TIMEZONES = ['UTC', 'UTC', 'EAST-3', 'WEST5', 'IST-5:30', 'PST8', 'AEST-10AEDT,M10.1.0,M4.1.0/3']
 
 
 class local_timezone(object):
